@@ -223,8 +223,8 @@ prop(
     "exactly once, the schedule consulted once afterwards and After called with exactly its answer, nothing after Shutdown except the single final Refresh whose error Shutdown wraps, the worker goroutine gone (else the bubble deadlocks). "
     "A scenario (outcome vector + signal script / tick-outcome sequence + shutdown options) is one case, distinct by construction",
     [st("signal", "c18", "TestSignal", synctest=True, timeout_q=600, timeout_t=2400), st("refresh", "c18", "TestRefresh", synctest=True, timeout_q=600, timeout_t=2400),
-     st("race_aux", "c18", "TestRaceAux", race=True, timeout_q=600, timeout_t=2400)],
-    floors=[dict(stage="signal", key="scenarios", min=15_000), dict(stage="refresh", key="scenarios", min=10_000)],
+     st("race_aux", "c18", "TestRaceAux", race=True, timeout_q=600, timeout_t=2400), st("os_signal", "c18", "TestOSSignal", race=True, timeout_q=300, timeout_t=300)],
+    floors=[dict(stage="signal", key="scenarios", min=15_000), dict(stage="refresh", key="scenarios", min=10_000), dict(stage="os_signal", key="real_signals_handled", min=4)],
     assumptions=["events are injected at quiescence: a tick racing with Shutdown under the real scheduler is an acknowledged TODO in the code and not what the property quantifies over",
                  "testing/synctest of Go 1.24.2 (GOEXPERIMENT=synctest); the relative order of context cancellation and error handling inside one refresh is not constrained"],
 )
